@@ -118,6 +118,14 @@ def check_axis(case, ctr, V, which, length, block, wide):
                 return
         raw = call([inlab[i] for i in arg], raw=True)
         ctr['calls'] += 1
+        if len(arg) <= 1:
+            rawp = call([inlab[i] for i in arg], True)    # documented second positional parameter
+            ctr['calls'] += 1
+            if not hasattr(rawp, 'members') or tuple(rawp.members()) != exp:
+                V.append(common.violation(ID, 'raw-form', case.ident(arg=[inlab[i] for i in arg],
+                                                                     form='positional raw'),
+                                          exp, repr(rawp)))
+                return
         if tuple(raw.members()) != exp:
             V.append(common.violation(ID, 'raw-form', case.ident(arg=[inlab[i] for i in arg]),
                                       exp, tuple(raw.members())))
@@ -258,7 +266,13 @@ def run_shard(shard, tier):
                 vs = check_char_case(case, ctr)
             except Exception as e:
                 vs = [common.library_exception(ID, case.ident(), e)]
-            ctr['evaluations'] += 1
+            # labels are opaque: names that differ only in surrounding blanks are different names
+            case = e1.Case(rows, tag, space.SPACE)
+            try:
+                vs += check_case(case, ctr)
+            except Exception as e:
+                vs += [common.library_exception(ID, case.ident(), e)]
+            ctr['evaluations'] += 2
             ctr['hit_str_argument'] += 1
             res['violations'].extend(vs[:2])
         for k_, v_ in ctr.items():
